@@ -7,7 +7,7 @@ use crate::proj;
 use crate::tok::{self, TKind};
 use serde_json::json;
 
-pub const FORMS: [(&str, &str, &str); 16] = [
+pub const FORMS: [(&str, &str, &str); 18] = [
     // a comment directly after the left token, no blank in between (`Wind-Speed-- km/h`): `--` cannot be part of a
     // reference or number, so it starts a comment (X.680 12.6.1)
     ("line-comment-glued", "-- c\n", "comment"),
@@ -26,6 +26,9 @@ pub const FORMS: [(&str, &str, &str); 16] = [
     ("block-comment-hostile", " /* \"q\" { } END SEQUENCE ::= é中 */ ", "comment"),
     ("line-comment-hostile", " -- \"x\" END { é\n", "comment"),
     ("block-comment-multiline", " /* a\n b */ ", "comment"),
+    ("block-comment-lone-quote", " /* 3.5\" drive */ ", "comment"),
+    // comment text that happens to read like the doc text the compiler gives to the types it makes up itself (last entry)
+    ("line-comment-marker-words", " -- Anonymous inner type\n", "comment"),
 ];
 
 const RESERVED: &[&str] = &[
@@ -177,7 +180,31 @@ fn check_input_part(inp: &Input, forms: &[usize], max_boundaries: usize, rng: &m
             }
             if let Some(kind) = kind {
                 let fam = if fclass == "comment" { if sep.contains("/*") { "block-comment" } else { "line-comment" } } else { fclass };
-                let sig = if inp.origin.starts_with("G(") || inp.origin.starts_with("T(") {
+                // is the boundary inside the body of a user-defined constraint, `CONSTRAINED BY { ... }`?
+                let in_constrained_by = {
+                    let mut depth = 0i32;
+                    let mut found = false;
+                    for k in (0..=b).rev() {
+                        match inp.toks[k].1.as_str() {
+                            "}" => depth += 1,
+                            "{" => {
+                                if depth == 0 {
+                                    found = k >= 2 && inp.toks[k - 1].1 == "BY" && inp.toks[k - 2].1 == "CONSTRAINED";
+                                    break;
+                                }
+                                depth -= 1;
+                            }
+                            _ => {}
+                        }
+                    }
+                    found
+                };
+                let sig = if fname == "line-comment-marker-words" && kind == "bindings-changed" {
+                    // root cause named by the form: the generator tells its own synthetic types by their doc text
+                    "c13|bindings-changed|comment-reads-like-the-doc-text-of-a-synthetic-type|line-comment".to_string()
+                } else if in_constrained_by && sep.contains(['{', '}']) {
+                    format!("c13|{kind}|brace-in-comment-inside-CONSTRAINED-BY-body|{fam}")
+                } else if inp.origin.starts_with("G(") || inp.origin.starts_with("T(") {
                     format!("c13|{kind}|{} {}|{fam}", tclass(lk, lt), tclass(rk, rt))
                 } else {
                     // real-world modules exercise notation outside the supported-notation grammar (information objects, MACRO,
@@ -225,7 +252,8 @@ fn check_multi(inp: &Input, n: usize, rng: &mut Rng, rep: &mut Report) {
             if skip_boundary(&inp.toks, b) || !rng.chance(1, density) {
                 continue;
             }
-            let fi = rng.below(FORMS.len());
+            // (the marker-words comment is a single-boundary form with a signature of its own)
+            let fi = rng.below(FORMS.len() - 1);
             let (_fname, sep, fclass) = FORMS[fi];
             if fclass == "none" && !tok::separable_without_space(&inp.toks[b].1, &inp.toks[b + 1].1) {
                 continue;
@@ -417,6 +445,7 @@ S2 ::= PrintableString (FROM ("AB") ^ SIZE (2))
 S3 ::= OCTET STRING (SIZE (4 | 8, ...))
 S4 ::= OCTET STRING (CONTAINING A1)
 S5 ::= UTF8String (PATTERN "[a-z]+")
+S6 ::= OCTET STRING (CONSTRAINED BY {A1, A2})
 L1 ::= SEQUENCE (SIZE (0..3)) OF A1
 L2 ::= SET SIZE (2) OF BOOLEAN
 L3 ::= SEQUENCE OF INTEGER (0..9)
@@ -492,7 +521,7 @@ pub fn run(ctx: &Ctx) -> Report {
     let corpus = load_corpus();
     let n_g = ctx.pick(90u64, 1500);
     let n_c = ctx.pick(50usize, 200);
-    let quick_forms: Vec<usize> = vec![0, 1, 2, 4, 6, 7, 9, 10, 13, 14];
+    let quick_forms: Vec<usize> = vec![0, 1, 2, 4, 6, 7, 9, 10, 13, 14, 16, 17];
     let all_forms: Vec<usize> = (0..FORMS.len()).collect();
     let forms = if ctx.quick() { quick_forms } else { all_forms };
     let max_b = ctx.pick(90usize, 300);
